@@ -283,6 +283,63 @@ contract('C03.runtime.counts', [DI + ':create_distribution', DI + ':RingDistribu
                                 DI + ':CrossDistribution.generate_points'], ['C03'], custom=_counts)(lambda c: None)
 
 
+def _object_na(ct, tier, seed):
+    """bounded, composition on the real code with nothing stubbed (the symbolic launch contracts take EPL and EPD from Paraxial by
+    contract; their values are C04's subject): for an object NA specification with the object immersed in a medium of index n0,
+    the axial rim ray (Hy = 0, Py = +-1) leaves the object point with n0 sin(theta) = NA -- tan(theta) = (EPD/2) / (EPL - z_obj)
+    composed with the EPD the library computes -- and is aimed at the rim of the entrance pupil"""
+    import random
+    import time
+    import warnings
+    import numpy as np
+    from optiland.optic import Optic
+    from optiland.materials import IdealMaterial
+    warnings.simplefilter('ignore')
+    t0 = time.time()
+    rng = random.Random(seed * 67 + 3)
+    clauses, fails, cases = {}, [], 0
+
+    def note(cid, ok, detail, inputs):
+        c_ = clauses.setdefault(cid, {'paths': 0, 'proved': 0, 'backends': {}, 'failed': [], 'seconds': 0.0, 'bounded': True})
+        c_['paths'] += 1
+        if ok:
+            c_['proved'] += 1
+            c_['backends']['runtime'] = c_['backends'].get('runtime', 0) + 1
+        elif len(fails) < 10:
+            fails.append({'clause': cid, 'draws': inputs, 'note': detail})
+    for i in range(6 if tier == 'quick' else 60):
+        n0 = (1.0, 1.333, 1.515)[i % 3]
+        na = rng.uniform(0.05, 0.3)
+        d0, R, t = rng.uniform(20, 80), rng.uniform(25, 60), rng.uniform(2, 6)
+        stop = 1 + i % 2
+        L = Optic()
+        L.add_surface(index=0, thickness=d0, material=IdealMaterial(n0))
+        L.add_surface(index=1, radius=R, thickness=t, material=IdealMaterial(1.6), is_stop=(stop == 1))
+        L.add_surface(index=2, radius=-R, thickness=50.0, is_stop=(stop == 2))
+        L.add_surface(index=3)
+        L.set_aperture('objectNA', na)
+        L.set_field_type('object_height')
+        L.add_field(y=0)
+        L.add_field(y=2.0)
+        L.add_wavelength(0.55, is_primary=True)
+        inputs = {'n0': n0, 'NA': na, 'object_distance': d0, 'R': R, 't': t, 'stop': stop}
+        for py in (1.0, -1.0):
+            r = L.ray_generator.generate_rays(0.0, 0.0, np.array([0.0]), np.array([py]), 0.55)
+            cases += 1
+            M = float(r.M[0])
+            note('C03.runtime.object_na_rim_ray_carries_the_stated_na', abs(n0 * M - py * na) <= 1e-9, 'n0 sin(theta) = %r, NA = %r' % (n0 * M, py * na), inputs)
+            note('C03.runtime.object_na_rim_ray_starts_on_the_axial_object_point', abs(float(r.y[0])) <= 1e-12 and abs(float(r.x[0])) <= 1e-12 and abs(float(r.L[0])) <= 1e-12,
+                 'x, y, L = %r %r %r' % (float(r.x[0]), float(r.y[0]), float(r.L[0])), inputs)
+    return {'contract': ct.name, 'functions': ct.functions, 'props': ct.props,
+            'symbolic': {'clauses': clauses, 'paths': 0, 'errors': [], 'solver_s': 0.0, 'samples': [], 'wd_assumed': [], 'assumed': []},
+            'numeric': {'accepted': cases, 'rejected': 0, 'failures': fails[:10], 'concolic_agree': 0, 'encoder_mismatches': [],
+                        'samples': [{'lens': 'immersed finite object, biconvex singlet, stop on either surface'}]}, 'wall_s': time.time() - t0}
+
+
+contract('C03.runtime.object_na', [RG + ':RayGenerator.generate_rays', 'optiland/paraxial.py:Paraxial.EPD', 'optiland/paraxial.py:Paraxial.EPL'],
+         ['C03'], custom=_object_na)(lambda c: None)
+
+
 @contract('C03.distribution.gaussian_quadrature', [DI + ':GaussianQuadrature.generate_points', DI + ':GaussianQuadrature._get_radius'],
           ['C03'], max_paths=4, concolic=False)
 def gq(c):
